@@ -4,10 +4,15 @@
 (* [level, value, start, len, parent start].                                       *)
 EXTENDS KeyHeader, Json, SequencesExt
 
-CaseOf ==
+CaseOf(D) ==
   [tag |-> "case", kind |-> "keys", nl |-> NL(keys),
    keys |-> keys,
-   nodes |-> SetToSeq({<<nd.lv, nd.val, nd.start, nd.len, nd.par>> : nd \in DeclNodes(keys)})]
+   nodes |-> SetToSeq({<<nd.lv, nd.val, nd.start, nd.len, nd.par>> : nd \in D})]
 
-EmitCase == PrintT(ToJson(CaseOf))
+\* checked as an invariant: the laws hold for the operational forest, it is the
+\* declarative one, and the case is printed (PrintT is TRUE)
+EmitCase ==
+  LET F == OpNodes(keys)
+      D == DeclNodes(keys)
+  IN LawsOf(F, keys) /\ F = D /\ PrintT(ToJson(CaseOf(D)))
 =============================================================================
